@@ -249,6 +249,9 @@ func Eval(g *gspec.Grammar, input []byte, opt Options) (res *Result) {
 					inj = true
 				case string:
 					msg = v
+				default:
+					// documented for any other value: its default formatting
+					msg = fmt.Sprintf("%v", v)
 				}
 				if sig.maxexpr {
 					msg = "max number of expressions parsed"
@@ -995,6 +998,8 @@ func (it *interp) fault(e *gspec.Expr, errPos Pos, panicOff int) {
 			panic(panicSignal{val: &vrt.InjectedError{ID: f.ID, Nth: n, Msg: f.Msg}, off: panicOff, rule: it.curRuleName()})
 		case "panic_str":
 			panic(panicSignal{val: f.Msg, off: panicOff, rule: it.curRuleName()})
+		case "panic_int":
+			panic(panicSignal{val: vrt.PanicInt(40 + len(f.Msg)), off: panicOff, rule: it.curRuleName()})
 		}
 		return
 	}
